@@ -5,8 +5,10 @@ reviewed 'fix:' commits) into mc/pinned_tables.json.  Run by hand, never by a
 check; the result is committed and reviewed (provenance S in DESIGN.md 2.2,
 cross-checked against the hand-written X formulas in mc/pinned.py by C10).
 
-Only structure is recorded: field key, decoding class, width -- no
-descriptions, no resolutions.
+Structure is recorded as field key, decoding class, width; the resolution of
+every data field is recorded separately under "res" (integers as such, floats
+in exact hexadecimal notation) and is used by C10's scale comparison only: it
+is a regression pin (provenance S), not an independent reading of the standard.
 """
 import json
 import sys
@@ -40,6 +42,7 @@ defs = {}
 for tbl in (pyrtcm.RTCM_PAYLOADS_GET, pyrtcm.RTCM_PAYLOADS_GET_MSM, pyrtcm.RTCM_PAYLOADS_GET_IGS):
     for ident, body in tbl.items():
         defs[ident] = enc(body)
-json.dump({"fields": fields, "defs": defs}, open("/verif/mc/pinned_tables.json", "w"),
+res = {k: (v[2] if isinstance(v[2], int) else float(v[2]).hex()) for k, v in pyrtcm.RTCM_DATA_FIELDS.items()}
+json.dump({"fields": fields, "defs": defs, "res": res}, open("/verif/mc/pinned_tables.json", "w"),
           indent=0, sort_keys=True)
 print(len(fields), "fields", len(defs), "definitions")
